@@ -403,6 +403,70 @@ def search(rep: C.Report, tier: str, broken):
                     rep.violation("a derivative taken after the table changed is not the derivative of the current table (inside the new range)",
                                   {"history": "newInterpolationTable(1,4,13); derivative([2,3]); " + hist + f"; derivative({xq}, order={order})", "returnValueCount": k,
                                    "got": np.asarray(got).tolist(), "exact": np.asarray(want).tolist()}, finding_key="C18:derivative-after-table-change")
+    # directed: vector-valued functions of which only ONE component is undefined (NaN or inf) below a threshold while the others are finite everywhere
+    # (make() above only produces rows that are bad in ALL components): every way of building a table -- new table across the threshold, extension into
+    # the undefined region, table from values, mode change (rebuild), write+read -- must not raise, must leave out exactly the abscissae below the
+    # threshold, and the remaining table must reproduce the cubics. All abscissae are dyadic, so the expected abscissae are exact.
+    coefP = [[1.3, -2.1, 0.7, 0.31], [0.25, 1.1, 0.0, -0.9], [2.2, 0.0, 1.7, 0.0], [-0.4, 0.6, -1.2, 0.2]]
+
+    def makePartial(k, comp, badval):
+        class Partial(InterpolatableFunction):
+            def _functionImplementation(self, x):
+                x = np.asanyarray(x, dtype=float)
+                cols = [c[0] + c[1] * x + c[2] * x ** 2 + c[3] * x ** 3 for c in coefP[:k]]
+                cols[comp] = np.where(x < 0.0, badval, cols[comp])          # this component only exists for x >= 0
+                return np.stack(cols, axis=-1)
+        return Partial
+
+    truthP = lambda z, k: np.stack([c[0] + c[1] * z + c[2] * z ** 2 + c[3] * z ** 3 for c in coefP[:k]], axis=-1)  # noqa: E731
+    for k, comp, badval in [(2, 0, np.nan), (2, 1, np.inf), (3, 1, np.nan), (3, 2, -np.inf), (4, 0, np.nan), (4, 3, np.nan)]:
+        clsP = makePartial(k, comp, badval)
+        for hist in ("new", "extend", "from-values", "new+modes", "new+write+read"):
+            f = clsP(bUseAdaptiveInterpolation=False, initialInterpolationPointCount=10, returnValueCount=k)
+            infoP = {"returnValueCount": k, "component_undefined_below_0": comp, "its_value_there": str(badval), "history": hist}
+            rep.case(key=("partial-nonfinite-row", k, comp, str(badval), hist))
+            rep.count("tables over rows that are non-finite in one component only")
+            try:
+                if hist == "extend":
+                    f.newInterpolationTable(0.5, 3.0, 11)
+                    f.extendInterpolationTable(-1.0, 3.0, 6, 0)              # new abscissae -1, -0.75, ..., 0.25: four of the six are below 0
+                    wantpts = np.arange(0, 13) * 0.25
+                    infoP["history"] = "newInterpolationTable(0.5,3,11); extendInterpolationTable(-1,3,6,0)"
+                elif hist == "from-values":
+                    xs_ = np.linspace(-0.5, 2.0, 21)
+                    f.newInterpolationTableFromValues(xs_, f._functionImplementation(xs_))
+                    wantpts = np.arange(0, 17) * 0.125
+                    infoP["history"] = "newInterpolationTableFromValues(linspace(-0.5,2,21), f(...))"
+                else:
+                    f.newInterpolationTable(-1.0, 3.0, 17)
+                    wantpts = np.arange(0, 13) * 0.25
+                    infoP["history"] = "newInterpolationTable(-1,3,17)"
+                    if hist == "new+modes":
+                        f.setExtrapolationType(E.CONSTANT, E.FUNCTION)
+                        infoP["history"] += "; setExtrapolationType(CONSTANT, FUNCTION)"
+                    elif hist == "new+write+read":
+                        fn = os.path.join(tempfile.gettempdir(), f"wgverif_c18p_{os.getpid()}.txt")
+                        f.writeInterpolationTable(fn)
+                        f = clsP(bUseAdaptiveInterpolation=False, initialInterpolationPointCount=10, returnValueCount=k)
+                        f.readInterpolationTable(fn)
+                        os.unlink(fn)
+                        infoP["history"] += "; writeInterpolationTable; readInterpolationTable into a fresh object"
+                pts = np.asarray(f._interpolationPoints, dtype=float)
+                if pts.shape != wantpts.shape or not np.all(pts == wantpts) or not np.all(np.isfinite(np.asarray(f._interpolationValues))):
+                    rep.violation("abscissae where one component is non-finite are not left out individually (exactly those, and only those)",
+                                  dict(infoP, points=pts.tolist(), expected_points=wantpts.tolist()), finding_key="C18:partial-nonfinite-row")
+                    continue
+                zz = np.array([0.0, 0.07, 0.3, 0.95, 1.61, float(wantpts[-1])] + ([-0.7, 3.4] if hist == "new+modes" else []))
+                got = np.asarray(f(zz), dtype=float)
+                want = truthP(np.where(zz < 0, 0.0, zz), k)                    # CONSTANT below: the boundary value; FUNCTION above: the cubic itself
+                errP = float(np.max(np.abs(got - want) / (1 + np.abs(want)))) if got.shape == want.shape else float("inf")
+                rep.extra["partial_nonfinite_row_max_rel_err"] = max(rep.extra.get("partial_nonfinite_row_max_rel_err", 0.0), errP)
+                if not errP <= 1e-9:
+                    rep.violation("evaluation on a table built over rows that are non-finite in one component differs from the cubic (or has the wrong shape)",
+                                  dict(infoP, x=zz.tolist(), got=got.tolist(), want=want.tolist()), finding_key="C18:partial-nonfinite-row")
+            except Exception as ex:  # noqa: BLE001
+                rep.violation("building / using a table over abscissae where only one component is non-finite raised",
+                              dict(infoP, error=f"{type(ex).__name__}: {str(ex)[:120]}"), finding_key="C18:partial-nonfinite-row")
     # directed history for the mid-call adaptive update (Lean: Props.C18.finding_midcall_update)
     cls = make(1, [[1, 2, 0, 1]] * 4)
     f = cls(bUseAdaptiveInterpolation=True, initialInterpolationPointCount=10, returnValueCount=1)
